@@ -571,8 +571,12 @@ impl Monitor for M {
 
     fn phases(&self, tier: Tier) -> Vec<Phase> {
         vec![
-            Phase::new("unit", 33).batch(4),
-            Phase::new("known", known_cases().len() as u64).batch(1),
+            Phase::new("unit", 33)
+                .batch(4)
+                .exhaustive("the 33 TeX-verified cases of the hyphenation_tests! table in crates/boxworks-hyphenate/src/lib.rs"),
+            Phase::new("known", known_cases().len() as u64)
+                .batch(1)
+                .exhaustive("the fixed reproducers of the listed findings and their control cases"),
             Phase::new("enum", gen::enum_total())
                 .batch(64)
                 .exhaustive("every lig/kern program of <=2 rules from {|,a,b,x,-}x{a,b,-,|}x{kern,8 LIG forms inserting x}, every word of 2-4 letters over {a,b}, every set of hyphen positions, minimums (1,1)"),
@@ -613,7 +617,11 @@ impl Monitor for M {
                 Err(e) => obs.inconclusive(format!("cannot read the unit test table: {e}")),
             },
             "known" => {
-                let (id, spec) = known_cases().swap_remove(idx as usize);
+                let mut all = known_cases();
+                if idx as usize >= all.len() {
+                    return;
+                }
+                let (id, spec) = all.swap_remove(idx as usize);
                 if let Some(out) = run_and_report(&spec, obs) {
                     obs.count("known_reproducers_run");
                     if id.is_empty() && (!out.report.known.is_empty() || !out.report.violations.is_empty()) {
